@@ -390,7 +390,12 @@ class Interp:
         elif isinstance(t, ast.Attribute):
             obj = self.eval(t.value, env)
             if isinstance(obj, SRec):
-                obj.set(self.mangle(t.attr, env), v)
+                name = self.mangle(t.attr, env)
+                custom = self.custom_setattr(obj)
+                if custom is not None:
+                    self.call_real(custom[0], [obj, name, v], {}, t.lineno, owner=custom[1])
+                else:
+                    obj.set(name, v)
             elif hasattr(obj, "setattr"):
                 obj.setattr(t.attr, v)
             elif isinstance(obj, (SArr, SArr2)) and t.attr == "encoding":
@@ -402,6 +407,18 @@ class Interp:
             self.store_subscript(obj, t.slice, v, env, t.lineno)
         else:
             raise Unsupported("assignment target %s" % type(t).__name__)
+
+    def custom_setattr(self, obj):
+        """the class-defined __setattr__ of a record's real class (None for object's own)"""
+        cls = obj._cls
+        if cls is None:
+            return None
+        for k in cls.__mro__:
+            if "__setattr__" in k.__dict__:
+                if k is object or not k.__module__.startswith("bionumpy"):
+                    return None
+                return (k.__dict__["__setattr__"], k)
+        return None
 
     def unpack(self, v, n):
         if isinstance(v, (tuple, list)):
@@ -1246,6 +1263,8 @@ class Interp:
                 args = self.eval_elts(e.args, env)
                 kwargs = {kw.arg: self.eval(kw.value, env) for kw in e.keywords}
                 if k is object:
+                    if name == "__setattr__" and isinstance(selfv, SRec) and len(args) == 2:
+                        selfv.set(args[0], args[1])          # object.__setattr__
                     return None
                 if isinstance(raw, classmethod):
                     raw = raw.__func__
